@@ -118,10 +118,10 @@ theorem operation_visitor_erases_to_input_partial (cfg : Config) (f : Nat) (root
   intro σ
   have h := visit_VRes cfg f root n s hs hno
   cases root
-  · obtain ⟨X, Δ, e, sX, _⟩ := h.2.1 σ
+  · obtain ⟨X, Δ, e, sX, _⟩ := h.2.1 _ (BRg.refl _) σ
     exact ⟨X, _, e, sX.1, eqNS_of_strip sX.1⟩
   · obtain ⟨hi, hv⟩ := h
-    obtain ⟨X, Δ, e, sX, _⟩ := hv.1 σ
+    obtain ⟨X, Δ, e, sX, _⟩ := hv.1 _ (BRg.refl _) σ
     exact ⟨X, _, e, sX.1, eqNS_of_strip sX.1⟩
 
 /-- in a nested (non-root) context the temporaries the erasure binds are exactly those allocated while
@@ -134,7 +134,7 @@ theorem operation_visitor_binds_only_its_own_temporaries_partial (cfg : Config) 
   have h := visit_VRes cfg f false n s hs hno
   refine ⟨h.1, ?_⟩
   intro σ
-  obtain ⟨X, Δ, e, sX, w⟩ := h.2.1 σ
+  obtain ⟨X, Δ, e, sX, w⟩ := h.2.1 _ (BRg.refl _) σ
   exact ⟨X, Δ, e, sX.1, w⟩
 
 /-- the hypotheses are satisfiable: `a + b()` is a well-formed source tree without optional chaining -/
